@@ -237,6 +237,17 @@ fn gen_points(rng: &mut Rng, tier: Tier) -> Sc {
             }
             spacing = side / (base as f64).powf(1.0 / dim as f64);
         }
+        _ if rng.chance(0.4) => {
+            label = "staggered-rows";
+            // one coordinate strictly increasing, another cycling through a few values: ties on
+            // the second axis only between points that are not neighbours along the first
+            let rows = 2 + rng.below(5);
+            let step = *rng.pick(&[0.5, 0.25, 1.0]);
+            for i in 0..n {
+                pts.push([i as f64 * step, (i % rows) as f64, if dim == 3 { ((i / rows) % 2) as f64 } else { 0.0 }]);
+            }
+            spacing = step;
+        }
         _ => {
             label = "axis-ties";
             // many points share one coordinate (long rows), the shape sample_dense produces
@@ -250,6 +261,16 @@ fn gen_points(rng: &mut Rng, tier: Tier) -> Sc {
     }
     rng.shuffle(&mut pts);
     let n = pts.len();
+    // which axis carries the ties is arbitrary as well: permute the axes
+    if rng.chance(0.5) {
+        let shift = 1 + rng.below(dim - 1);
+        for p in pts.iter_mut() {
+            let q = *p;
+            for k in 0..dim {
+                p[(k + shift) % dim] = q[k];
+            }
+        }
+    }
     // the length unit is arbitrary (power of two: lattice ties stay exact)
     let unit_scale = if rng.chance(0.3) { 2f64.powi(rng.range(-20, 20) as i32) } else { 1.0 };
     for p in pts.iter_mut() {
